@@ -14,6 +14,12 @@ CACHE = os.path.join(ROOT, ".cache", "zoo")
 
 # name -> kwargs of qrules.generate_transitions (formalism added by the caller)
 REACTIONS = {
+    # the photon is a daughter of a resonance (axis-angle alignment computes a Wigner rotation for it); two symmetrised topologies
+    "jpsi_gamma_pi0_pi0_omega": dict(initial_state=("J/psi(1S)", [+1]), final_state=["gamma", "pi0", "pi0"], allowed_intermediate_particles=["omega(782)"],
+                                     allowed_interaction_types=["strong", "EM"]),
+    # two IDENTICAL spin-1 siblings that both decay: (lambda1, lambda2) and (lambda2, lambda1) at the production node are different chains
+    "chic1_phi_phi": dict(initial_state="chi(c1)(1P)", final_state=["K+", "K-", "K0", "K~0"], allowed_intermediate_particles=["phi(1020)"],
+                          allowed_interaction_types=["strong"]),
     # a massless spin-1/2 state next to a massive spin-1 state (axis-angle alignment: the flag `no_zero_spin` must follow the ROTATED state)
     "tau_nu_rho": dict(initial_state="tau-", final_state=["nu(tau)", "rho(770)-"], allowed_interaction_types=["weak"]),
     "tau_nu_rho0_pi": dict(initial_state="tau-", final_state=["nu(tau)", "rho(770)0", "pi-"], allowed_intermediate_particles=["a(1)(1260)-"],
